@@ -216,10 +216,16 @@ def run(ctx):
             from ..prov import derive as _derive, index_of as _index_of
 
             rix_ = _index_of(row)
+            closure_seeks = any((t_.get("res") or "").endswith("Seek>::seek") for c_ in prog.closures_of("exd::EXD::read_row") for _bi, t_ in c_.calls())
+            inlined_params = {l_ for l_, nm_ in row.local_names().items() if "~" in nm_}
             for _bi, t_ in row.calls():
+                if closure_seeks:
+                    break  # a closure does the cell seeks: it was judged above
                 if (t_.get("res") or "").endswith("Seek>::seek") and len(t_["args"]) == 2:
                     d_ = _derive(rix_, t_["args"][1])
-                    if {"column_definitions", "offset"} <= d_.names and "Add" in d_.ops and ("data_offsets" in d_.names or "row_id" in d_.names or any(c_.split("::")[-1] == "find" for c_ in d_.calls)):
+                    # the row term must be a value handed to the sub-row reader at each call (its parameter), the
+                    # column term the column's own offset
+                    if {"column_definitions", "offset"} <= d_.names and "Add" in d_.ops and (d_.locals & inlined_params):
                         ok = True
         ctx.ob("SEEK", "column-seek", ok, "each cell is read at row_offset + column.offset", row.file, row.line)
     if rb:
